@@ -79,6 +79,8 @@ func nxConfigs(part string, thorough bool) []*nxCfg {
 				Script: []string{"W1", "W2", "W1", "H1", "W2", "S2", "W1", "S1"}, HoldJobs: 1, Stops: 1, Crashes: 1, LazyApplies: 1, Horizon: 250},
 			{Name: "pool-restart-from-snapshot", N: 3, RealPool: true, SnapshotEntries: 2, MaxDev: pick(2, 3), Prefix: nxWarm,
 				Script: []string{"W1", "W2", "W1", "H1", "C2", "W2", "H1", "C1", "T2", "H2", "W3", "H2"}, HoldJobs: 1, Crashes: pick(0, 1), LazyApplies: 1, Drops: pick(0, 1), Horizon: 250},
+			{Name: "ondisk-pool-restart-stream", N: 3, OnDisk: true, RealPool: true, SnapshotEntries: 2, Compaction: 1, MaxDev: pick(1, 2), Prefix: nxWarm,
+				Script: []string{"M4", "W1", "W2", "W1", "W2", "E", "H1", "H1", "W1", "C3", "H1", "W2", "C1", "T2", "H2", "W3", "H2"}, HoldJobs: 1, Crashes: 1, LazyApplies: 1, Drops: 1, Horizon: 400},
 			{Name: "pool-snapshot-catchup", N: 3, RealPool: true, SnapshotEntries: 2, Compaction: 1, MaxDev: pick(1, 2), Prefix: nxWarm,
 				Script: []string{"M4", "W1", "W2", "W1", "W2", "E", "H1", "H1", "W1", "H1", "C3", "H1", "W2", "H1"}, HoldJobs: 1, LazyApplies: 1, Drops: 1, Crashes: 1, Horizon: 300},
 		}
@@ -111,6 +113,13 @@ func nxConfigs(part string, thorough bool) []*nxCfg {
 			{Name: "ratelimit-realtime", N: 3, RealTime: true, RateLimit: 200, MaxDev: 1, Prefix: nxWarm,
 				Script:   append(append([]string{"z1", "W1", "W1", "W1", "W1", "K1", "K2", "K3", "W1", "Z1"}, repN([]string{"K1", "K2", "K3"}, 130)...), "W2", "K1", "K2", "K3", "W1", "K1", "K2", "K3"),
 				Reorders: 1, LazyApplies: 1, Horizon: 3000, RequireComplete: true, BusyAllowedBefore: 5},
+			{Name: "ondisk-two-joiners-stream", N: 3, NonVotings: 2, OnDisk: true, SnapshotEntries: 2, Compaction: 1, MaxDev: 1, Prefix: nxWarm,
+				Script:   []string{"W1", "W2", "W1", "W2", "A1:4", "A1:5", "J4", "J5", "H1", "H1", "H1", "H1", "H1", "W1", "H1", "H1", "H1"},
+				Reorders: 1, LazyApplies: 1, Horizon: 600, RequireComplete: true, RequireCaughtUp: true},
+			{Name: "ondisk-pool-two-joiners-stream", N: 3, NonVotings: 2, OnDisk: true, RealPool: true, SnapshotEntries: 2, Compaction: 1, MaxDev: pick(1, 2), Prefix: nxWarm,
+				// U1: a snapshot job of replica 1 that a deviation held back is released, then the scenario goes on
+				Script:   []string{"W1", "W2", "W1", "W2", "A1:4", "A1:5", "J4", "J5", "H1", "H1", "H1", "U1", "H1", "H1", "H1", "W1", "H1", "H1", "H1"},
+				HoldJobs: 1, Reorders: 1, Horizon: 600, RequireComplete: true, RequireCaughtUp: true},
 			{Name: "restart-then-requests", N: 3, MaxDev: 1, Prefix: nxWarm, Script: []string{"W1", "C2", "H1", "W2", "R2", "C1", "T2", "H2", "W3", "R1", "H2"}, Reorders: 1, LazyApplies: 1, Horizon: 300, RequireComplete: true},
 		}
 	case "c01":
@@ -122,6 +131,8 @@ func nxConfigs(part string, thorough bool) []*nxCfg {
 			{Name: "reads-follower", N: 3, MaxDev: pick(2, 3), Prefix: nxWarm, Script: []string{"W2", "R3", "R1", "W3", "R2", "H1"}, Timeouts: 2, Crashes: 1, Drops: 3, LazyApplies: 1, Heartbeats: 1, Horizon: 150},
 			{Name: "snapshot-catchup-read", N: 3, SnapshotEntries: 2, Compaction: 1, MaxDev: pick(1, 2), Prefix: nxWarm,
 				Script: []string{"M4", "W1", "W2", "W1", "W2", "E", "H1", "H1", "R3", "W1", "R3", "H1"}, LazyApplies: 1, Drops: 1, Crashes: 1, Reorders: 1, Horizon: 300},
+			{Name: "ondisk-stream-catchup-read", N: 3, OnDisk: true, SnapshotEntries: 2, Compaction: 1, MaxDev: pick(1, 2), Prefix: nxWarm,
+				Script: []string{"M4", "W1", "W2", "W1", "W2", "E", "H1", "H1", "R3", "W1", "R3", "C3", "H1", "R3", "W2", "H1"}, LazyApplies: 1, Drops: 1, Crashes: 1, Reorders: 1, Horizon: 400},
 			{Name: "3v+nv-partitioned-old-leader", N: 3, NonVotings: 1, MaxDev: pick(2, 3), Prefix: []string{"T1", "D*", "H1", "D*", "A1:4", "D*", "J4", "D*", "H1", "D*"},
 				Script: []string{"W1", "M9", "T2", "H2", "W2", "H2", "R1", "H1", "R4", "H1", "H1", "E", "H2"}, Heartbeats: 1, LazyApplies: 1, Drops: 1, Horizon: 250},
 		}
